@@ -185,4 +185,602 @@ theorem lemma_rel_body (s : St) (m : Mon) (hR : Rel s m) (op : Op) (hb : op.isBo
       names := by show m.names = (s.core.step op).named; rw [h3]; exact hR.names
       frozenPt := hfz }
 
+
+/-! ### small transitions -/
+
+theorem lemma_rel_setStatus (s : St) (m : Mon) (hR : Rel s m) (i : Nat) (st' : Status)
+    (h : st' ≠ .atFrozen ∨ s.core.fpc = .done) : Rel (setStatus s i st') m :=
+  { inv := hR.inv, serving := hR.serving, accepted := hR.accepted, cons := hR.cons, names := hR.names
+    frozenPt := by
+      rintro ⟨j, hj⟩
+      rcases h with h | h
+      · rcases lemma_atFrozen_set s.status i st' j hj with h1 | h1
+        · exact absurd h1 h
+        · exact hR.frozenPt ⟨j, h1⟩
+      · exact h }
+
+theorem lemma_wpcVis_ne (w : WPc) : wpcVis w ≠ .freezeFlags := by cases w <;> simp [wpcVis]
+
+theorem lemma_visFF_frozen (s : St) (i : Nat) (hI : Inv s.core) (h : visOf s i = .freezeFlags) :
+    s.core.frozen = true := by
+  unfold visOf at h
+  cases hs : s.status[i]? with
+  | none => simp [hs] at h
+  | some st =>
+    simp only [hs] at h
+    cases st <;> simp only [vis] at h <;> try (simp at h; done)
+    · -- inFreeze
+      cases hf : s.core.fpc with
+      | flags => exact hI.frozen_iff.2 (by simp [hf])
+      | idle => simp [hf] at h
+      | tail => simp [hf] at h
+      | done => simp [hf] at h
+      | inWarmup =>
+        simp only [hf] at h
+        split at h
+        · exact absurd h (lemma_wpcVis_ne _)
+        · simp at h
+    · -- inWarmup
+      exact absurd h (lemma_wpcVis_ne _)
+
+theorem lemma_rel_vis (s : St) (m : Mon) (hR : Rel s m) (i : Nat) :
+    Rel s (if visOf s i = .freezeFlags then { m with servingBegun := true } else m) := by
+  split
+  · rename_i h
+    have hf := lemma_visFF_frozen s i hR.inv h
+    exact { inv := hR.inv, serving := by simp [hf], accepted := hR.accepted, cons := hR.cons,
+            names := hR.names, frozenPt := hR.frozenPt }
+  · exact hR
+
+/-- a step that reports nothing and leaves the monitor's view unchanged -/
+theorem lemma_quiet (m : Mon) (k : Kind) (i : Nat) (s' : St) (hR : Rel s' m) :
+    ∃ m', m.next k { actor := i, vis := visOf s' i, out := .none } = some m' ∧ Rel s' m' :=
+  ⟨_, lemma_next_none m k i _, lemma_rel_vis s' m hR i⟩
+
+theorem lemma_vis_finished (s : St) (i : Nat) (h : s.status[i]? = some .finished) : visOf s i = .done := by
+  simp [visOf, h, vis]
+
+theorem lemma_stable_atFrozen (s : St) (m : Mon) (hR : Rel s m) (op : Op) (l : List Status)
+    (h : (∃ j : Nat, l[j]? = some Status.atFrozen) → ∃ j : Nat, s.status[j]? = some Status.atFrozen) :
+    (∃ j : Nat, l[j]? = some Status.atFrozen) → (s.core.step op).fpc = .done :=
+  fun hx => lemma_done_stable s.core op (hR.frozenPt (h hx))
+
+/-! ### `callFreeze` -/
+
+theorem lemma_callFreeze (s : St) (m : Mon) (hR : Rel s m) (i : Nat) (k : Kind) (hi : i < s.status.length) :
+    ∃ m', m.next k { actor := i, vis := visOf (callFreeze s i k) i, out := .none } = some m' ∧
+      Rel (callFreeze s i k) m' := by
+  unfold callFreeze
+  cases hf : s.core.fpc with
+  | done =>
+    simp only
+    exact lemma_quiet m k i _ (lemma_rel_setStatus s m hR i _ (Or.inr hf))
+  | idle =>
+    simp only
+    -- the goroutine enters the `freezeOnce` body: flags stored, parked at `freeze.flags`
+    have hcore : (s.core.step .enterFreeze) = { s.core with serving := true, frozen := true, fpc := .flags } := by
+      simp [Core.step, hf]
+    have hvis : visOf (setStatus { s with core := s.core.step .enterFreeze } i .inFreeze) i = .freezeFlags := by
+      simp [visOf, setStatus, hi, vis, hcore]
+    refine ⟨{ m with servingBegun := true }, ?_, ?_⟩
+    · rw [lemma_next_none, hvis]; simp
+    · have hb := lemma_body_fields s.core .enterFreeze rfl
+      exact
+        { inv := lemma_inv_step s.core .enterFreeze hR.inv
+          serving := by show true = (s.core.step .enterFreeze).frozen; rw [hcore]
+          accepted := by show m.accepted = (s.core.step .enterFreeze).objs; rw [hb.1]; exact hR.accepted
+          cons := by show m.cons = (s.core.step .enterFreeze).cons; rw [hb.2.1]; exact hR.cons
+          names := by show m.names = (s.core.step .enterFreeze).named; rw [hb.2.2]; exact hR.names
+          frozenPt := by
+            rintro ⟨j, hj⟩
+            rcases lemma_atFrozen_set s.status i .inFreeze j hj with h1 | h1
+            · cases h1
+            · have := hR.frozenPt ⟨j, h1⟩
+              rw [hf] at this
+              cases this }
+  | flags =>
+    simp only
+    exact lemma_quiet m k i _ (lemma_rel_setStatus s m hR i _ (Or.inl (by simp)))
+  | inWarmup =>
+    simp only
+    exact lemma_quiet m k i _ (lemma_rel_setStatus s m hR i _ (Or.inl (by simp)))
+  | tail =>
+    simp only
+    exact lemma_quiet m k i _ (lemma_rel_setStatus s m hR i _ (Or.inl (by simp)))
+
+
+/-! ### the `Once` bodies -/
+
+theorem lemma_body_step (s : St) (m : Mon) (hR : Rel s m) (op : Op) (hb : op.isBody = true)
+    (hne : op ≠ .enterFreeze) (l : List Status) (w : Bool)
+    (h : (∃ j : Nat, l[j]? = some Status.atFrozen) → ∃ j : Nat, s.status[j]? = some Status.atFrozen) :
+    Rel { core := s.core.step op, status := l, wByFreeze := w } m :=
+  lemma_rel_body s m hR op hb l w (lemma_stable_atFrozen s m hR op l h) hne
+
+theorem lemma_wakeW_atFrozen (s : St)
+    (h : ∃ j : Nat, (wakeW s).status[j]? = some Status.atFrozen) : ∃ j : Nat, s.status[j]? = some Status.atFrozen := by
+  obtain ⟨j, hj⟩ := h
+  exact ⟨j, lemma_atFrozen_wakeW s.status j hj⟩
+
+/-- the goroutine that owns the `freezeOnce` body -/
+theorem lemma_inFreeze (kinds : List Kind) (s : St) (m : Mon) (hR : Rel s m) (i : Nat) (k : Kind) :
+    ∃ m', m.next k { actor := i, vis := visOf (stepActor kinds s i k .inFreeze).1 i,
+                     out := (stepActor kinds s i k .inFreeze).2 } = some m' ∧
+      Rel (stepActor kinds s i k .inFreeze).1 m' := by
+  have hstep : stepActor kinds s i k .inFreeze =
+      ((match s.core.fpc with
+        | .flags => { s with core := s.core.step .freezeCallWarmup, wByFreeze := decide (s.core.wpc = .idle) }
+        | .inWarmup =>
+          if s.wByFreeze then
+            (if s.core.wpc = .compiled then wakeW { s with core := s.core.step .warmupStep }
+             else { s with core := s.core.step .warmupStep })
+          else s
+        | .tail => setStatus (wakeF kinds { s with core := s.core.step .freezeFinish }) i (afterFreeze k)
+        | _ => s), .none) := by
+    cases k <;> rfl
+  rw [hstep]
+  simp only
+  cases hf : s.core.fpc with
+  | idle => exact lemma_quiet m k i s hR
+  | done => exact lemma_quiet m k i s hR
+  | flags =>
+    exact lemma_quiet m k i _ (lemma_body_step s m hR .freezeCallWarmup rfl (by simp) s.status _ id)
+  | inWarmup =>
+    simp only
+    split
+    · split
+      · refine lemma_quiet m k i _ ?_
+        have := lemma_body_step s m hR .warmupStep rfl (by simp)
+          (wakeW { s with core := s.core.step .warmupStep }).status s.wByFreeze
+          (fun hx => lemma_wakeW_atFrozen { s with core := s.core.step .warmupStep } hx)
+        exact this
+      · exact lemma_quiet m k i _ (lemma_body_step s m hR .warmupStep rfl (by simp) s.status _ id)
+    · exact lemma_quiet m k i s hR
+  | tail =>
+    simp only
+    refine lemma_quiet m k i _ ?_
+    have hdone : (s.core.step .freezeFinish).fpc = .done := by simp [Core.step, hf]
+    exact lemma_rel_body s m hR .freezeFinish rfl _ _ (fun _ => hdone) (by simp)
+
+/-- the goroutine that owns the `warmupOnce` body through an explicit `Warmup()` -/
+theorem lemma_inWarmup (kinds : List Kind) (s : St) (m : Mon) (hR : Rel s m) (i : Nat) (k : Kind) :
+    ∃ m', m.next k { actor := i, vis := visOf (stepActor kinds s i k .inWarmup).1 i,
+                     out := (stepActor kinds s i k .inWarmup).2 } = some m' ∧
+      Rel (stepActor kinds s i k .inWarmup).1 m' := by
+  have hstep : stepActor kinds s i k .inWarmup =
+      (if s.core.wpc = .compiled then setStatus (wakeW { s with core := s.core.step .warmupStep }) i .finished
+       else { s with core := s.core.step .warmupStep }, .none) := by
+    cases k <;> rfl
+  rw [hstep]
+  simp only
+  split
+  · refine lemma_quiet m k i _ ?_
+    refine lemma_body_step s m hR .warmupStep rfl (by simp) _ _ ?_
+    rintro ⟨j, hj⟩
+    rcases lemma_atFrozen_set _ i .finished j hj with h1 | h1
+    · cases h1
+    · exact lemma_wakeW_atFrozen { s with core := s.core.step .warmupStep } ⟨j, h1⟩
+  · exact lemma_quiet m k i _ (lemma_body_step s m hR .warmupStep rfl (by simp) s.status _ id)
+
+
+/-! ### mutations -/
+
+theorem lemma_setStatus_vis_finished (s : St) (i : Nat) (hi : i < s.status.length) :
+    visOf (setStatus s i .finished) i = .done :=
+  lemma_vis_finished _ i (lemma_setStatus_self s i .finished hi)
+
+theorem lemma_register_objs (c : Core) (r : RouteId) (h1 : c.objs.contains r = false)
+    (h2 : (c.serving || c.frozen) = false) :
+    (c.step (.register r)).objs = r :: c.objs ∧ (c.step (.register r)).cons = c.cons ∧
+    (c.step (.register r)).named = c.named := by
+  simp only [Core.step, h1, h2, Bool.false_eq_true, if_false]
+  split
+  · exact ⟨(lemma_reg_fields _ r).1, (lemma_reg_fields _ r).2.2.2.1, (lemma_reg_fields _ r).2.2.2.2.1⟩
+  · exact ⟨rfl, rfl, rfl⟩
+
+theorem lemma_next_register (m : Mon) (i : Nat) (r : RouteId) (res : Res) :
+    m.next (.register r) { actor := i, vis := .done, out := .mut res } =
+      (if res = .na then (if m.accepted.contains r then some m else none)
+       else if m.accepted.contains r then none
+       else if mutationOK m true res then
+         some (if res = .accepted then { m with accepted := r :: m.accepted } else m)
+       else none) := by
+  simp [Mon.next]
+
+theorem lemma_next_where (m : Mon) (i : Nat) (r : RouteId) (res : Res) :
+    m.next (.whereInt r) { actor := i, vis := .done, out := .mut res } =
+      (if mutationOK m (m.accepted.contains r) res then
+         some (if res = .accepted then { m with cons := r :: m.cons } else m)
+       else none) := by
+  simp [Mon.next]
+
+theorem lemma_next_name (m : Mon) (i : Nat) (r : RouteId) (res : Res) :
+    m.next (.setName r) { actor := i, vis := .done, out := .mut res } =
+      (if mutationOK m (m.accepted.contains r) res then
+         some (if res = .accepted then { m with names := r :: m.names } else m)
+       else none) := by
+  simp [Mon.next]
+
+theorem lemma_register (s : St) (m : Mon) (hR : Rel s m) (i : Nat) (r : RouteId) (hi : i < s.status.length) :
+    ∃ m', m.next (.register r)
+        { actor := i, vis := visOf (setStatus { s with core := s.core.step (.register r) } i .finished) i,
+          out := .mut (registerRes s.core r) } = some m' ∧
+      Rel (setStatus { s with core := s.core.step (.register r) } i .finished) m' := by
+  rw [lemma_setStatus_vis_finished { s with core := s.core.step (.register r) } i hi, lemma_next_register]
+  have hsf := hR.inv.serving_frozen
+  by_cases hobj : s.core.objs.contains r = true
+  · -- not a new object
+    have hres : registerRes s.core r = .na := by simp only [registerRes, hobj, ↓reduceIte]
+    have hc : s.core.step (.register r) = s.core := by simp only [Core.step, hobj, ↓reduceIte]
+    have hacc : m.accepted.contains r = true := by rw [hR.accepted]; exact hobj
+    rw [hc, hres]
+    refine ⟨m, ?_, lemma_rel_setStatus s m hR i _ (Or.inl (by simp))⟩
+    simp only [hacc, ↓reduceIte]
+  · have hobj' : s.core.objs.contains r = false := by simpa using hobj
+    have hacc : m.accepted.contains r = false := by rw [hR.accepted]; exact hobj'
+    have hmem : r ∉ m.accepted := by simpa using hacc
+    by_cases hsv : (s.core.serving || s.core.frozen) = true
+    · -- rejected
+      have hres : registerRes s.core r = .rejected := by
+        simp only [registerRes, hobj', hsv, ↓reduceIte, Bool.false_eq_true]
+      have hc : s.core.step (.register r) = s.core := by
+        simp only [Core.step, hobj', hsv, ↓reduceIte, Bool.false_eq_true]
+      have hfr : s.core.frozen = true := by
+        rw [hsf] at hsv; simpa using hsv
+      have hsb : m.servingBegun = true := by rw [hR.serving]; exact hfr
+      rw [hc, hres]
+      refine ⟨m, ?_, lemma_rel_setStatus s m hR i _ (Or.inl (by simp))⟩
+      simp [hmem, mutationOK, hsb]
+    · -- accepted
+      have hsv' : (s.core.serving || s.core.frozen) = false := by simpa using hsv
+      have hres : registerRes s.core r = .accepted := by
+        simp only [registerRes, hobj', hsv', ↓reduceIte, Bool.false_eq_true]
+      have hfr : s.core.frozen = false := by
+        rw [hsf] at hsv'; simpa using hsv'
+      have hsb : m.servingBegun = false := by rw [hR.serving]; exact hfr
+      obtain ⟨h1, h2, h3⟩ := lemma_register_objs s.core r hobj' hsv'
+      rw [hres]
+      refine ⟨{ m with accepted := r :: m.accepted }, ?_, ?_⟩
+      · simp [hmem, mutationOK, hsb]
+      · exact
+          { inv := lemma_inv_step s.core (.register r) hR.inv
+            serving := by show m.servingBegun = (s.core.step (.register r)).frozen
+                          rw [lemma_frozen_step _ _ (by simp)]; exact hR.serving
+            accepted := by show r :: m.accepted = (s.core.step (.register r)).objs
+                           rw [h1, hR.accepted]
+            cons := by show m.cons = (s.core.step (.register r)).cons; rw [h2]; exact hR.cons
+            names := by show m.names = (s.core.step (.register r)).named; rw [h3]; exact hR.names
+            frozenPt := by
+              rintro ⟨j, hj⟩
+              rcases lemma_atFrozen_set s.status i .finished j hj with h1 | h1
+              · cases h1
+              · exact lemma_done_stable _ _ (hR.frozenPt ⟨j, h1⟩) }
+
+theorem lemma_where_fields (c : Core) (r : RouteId) (h1 : c.objs.contains r = true) (h2 : c.frozen = false) :
+    (c.step (.whereInt r)).objs = c.objs ∧ (c.step (.whereInt r)).cons = r :: c.cons ∧
+    (c.step (.whereInt r)).named = c.named := by
+  simp only [Core.step, h1, h2, Bool.not_true, Bool.false_eq_true, ↓reduceIte]
+  split
+  · exact ⟨(lemma_reg_fields _ r).1, (lemma_reg_fields _ r).2.2.2.1, (lemma_reg_fields _ r).2.2.2.2.1⟩
+  · exact ⟨rfl, rfl, rfl⟩
+
+theorem lemma_whereInt (s : St) (m : Mon) (hR : Rel s m) (i : Nat) (r : RouteId) (hi : i < s.status.length) :
+    ∃ m', m.next (.whereInt r)
+        { actor := i, vis := visOf (setStatus { s with core := s.core.step (.whereInt r) } i .finished) i,
+          out := .mut (mutateRes s.core r) } = some m' ∧
+      Rel (setStatus { s with core := s.core.step (.whereInt r) } i .finished) m' := by
+  rw [lemma_setStatus_vis_finished { s with core := s.core.step (.whereInt r) } i hi, lemma_next_where]
+  by_cases hobj : s.core.objs.contains r = true
+  · have hacc : m.accepted.contains r = true := by rw [hR.accepted]; exact hobj
+    have hmem : r ∈ m.accepted := by simpa using hacc
+    by_cases hfr : s.core.frozen = true
+    · have hres : mutateRes s.core r = .rejected := by
+        simp only [mutateRes, hobj, hfr, Bool.not_true, Bool.false_eq_true, ↓reduceIte]
+      have hc : s.core.step (.whereInt r) = s.core := by
+        simp only [Core.step, hobj, hfr, Bool.not_true, Bool.false_eq_true, ↓reduceIte]
+      have hsb : m.servingBegun = true := by rw [hR.serving]; exact hfr
+      rw [hc, hres]
+      refine ⟨m, ?_, lemma_rel_setStatus s m hR i _ (Or.inl (by simp))⟩
+      simp [hmem, mutationOK, hsb]
+    · have hfr' : s.core.frozen = false := by simpa using hfr
+      have hres : mutateRes s.core r = .accepted := by
+        simp only [mutateRes, hobj, hfr', Bool.not_true, Bool.false_eq_true, ↓reduceIte]
+      have hsb : m.servingBegun = false := by rw [hR.serving]; exact hfr'
+      obtain ⟨h1, h2, h3⟩ := lemma_where_fields s.core r hobj hfr'
+      rw [hres]
+      refine ⟨{ m with cons := r :: m.cons }, ?_, ?_⟩
+      · simp [hmem, mutationOK, hsb]
+      · exact
+          { inv := lemma_inv_step s.core (.whereInt r) hR.inv
+            serving := by show m.servingBegun = (s.core.step (.whereInt r)).frozen
+                          rw [lemma_frozen_step _ _ (by simp)]; exact hR.serving
+            accepted := by show m.accepted = (s.core.step (.whereInt r)).objs; rw [h1]; exact hR.accepted
+            cons := by show r :: m.cons = (s.core.step (.whereInt r)).cons; rw [h2, hR.cons]
+            names := by show m.names = (s.core.step (.whereInt r)).named; rw [h3]; exact hR.names
+            frozenPt := by
+              rintro ⟨j, hj⟩
+              rcases lemma_atFrozen_set s.status i .finished j hj with h1 | h1
+              · cases h1
+              · exact lemma_done_stable _ _ (hR.frozenPt ⟨j, h1⟩) }
+  · have hobj' : s.core.objs.contains r = false := by simpa using hobj
+    have hacc : m.accepted.contains r = false := by rw [hR.accepted]; exact hobj'
+    have hmem : r ∉ m.accepted := by simpa using hacc
+    have hres : mutateRes s.core r = .na := by
+      simp only [mutateRes, hobj', Bool.not_false, ↓reduceIte]
+    have hc : s.core.step (.whereInt r) = s.core := by
+      simp only [Core.step, hobj', Bool.not_false, ↓reduceIte]
+    rw [hc, hres]
+    refine ⟨m, ?_, lemma_rel_setStatus s m hR i _ (Or.inl (by simp))⟩
+    simp [hmem, mutationOK]
+
+theorem lemma_setName (s : St) (m : Mon) (hR : Rel s m) (i : Nat) (r : RouteId) (hi : i < s.status.length) :
+    ∃ m', m.next (.setName r)
+        { actor := i, vis := visOf (setStatus { s with core := s.core.step (.setName r) } i .finished) i,
+          out := .mut (mutateRes s.core r) } = some m' ∧
+      Rel (setStatus { s with core := s.core.step (.setName r) } i .finished) m' := by
+  rw [lemma_setStatus_vis_finished { s with core := s.core.step (.setName r) } i hi, lemma_next_name]
+  by_cases hobj : s.core.objs.contains r = true
+  · have hacc : m.accepted.contains r = true := by rw [hR.accepted]; exact hobj
+    have hmem : r ∈ m.accepted := by simpa using hacc
+    by_cases hfr : s.core.frozen = true
+    · have hres : mutateRes s.core r = .rejected := by
+        simp only [mutateRes, hobj, hfr, Bool.not_true, Bool.false_eq_true, ↓reduceIte]
+      have hc : s.core.step (.setName r) = s.core := by
+        simp only [Core.step, hobj, hfr, Bool.not_true, Bool.false_eq_true, ↓reduceIte]
+      have hsb : m.servingBegun = true := by rw [hR.serving]; exact hfr
+      rw [hc, hres]
+      refine ⟨m, ?_, lemma_rel_setStatus s m hR i _ (Or.inl (by simp))⟩
+      simp [hmem, mutationOK, hsb]
+    · have hfr' : s.core.frozen = false := by simpa using hfr
+      have hres : mutateRes s.core r = .accepted := by
+        simp only [mutateRes, hobj, hfr', Bool.not_true, Bool.false_eq_true, ↓reduceIte]
+      have hsb : m.servingBegun = false := by rw [hR.serving]; exact hfr'
+      have hc : s.core.step (.setName r) = { s.core with named := r :: s.core.named } := by
+        simp only [Core.step, hobj, hfr', Bool.not_true, Bool.false_eq_true, ↓reduceIte]
+      rw [hres]
+      refine ⟨{ m with names := r :: m.names }, ?_, ?_⟩
+      · simp [hmem, mutationOK, hsb]
+      · exact
+          { inv := lemma_inv_step s.core (.setName r) hR.inv
+            serving := by show m.servingBegun = (s.core.step (.setName r)).frozen
+                          rw [lemma_frozen_step _ _ (by simp)]; exact hR.serving
+            accepted := by show m.accepted = (s.core.step (.setName r)).objs; rw [hc]; exact hR.accepted
+            cons := by show m.cons = (s.core.step (.setName r)).cons; rw [hc]; exact hR.cons
+            names := by show r :: m.names = (s.core.step (.setName r)).named; rw [hc, hR.names]
+            frozenPt := by
+              rintro ⟨j, hj⟩
+              rcases lemma_atFrozen_set s.status i .finished j hj with h1 | h1
+              · cases h1
+              · exact lemma_done_stable _ _ (hR.frozenPt ⟨j, h1⟩) }
+  · have hobj' : s.core.objs.contains r = false := by simpa using hobj
+    have hacc : m.accepted.contains r = false := by rw [hR.accepted]; exact hobj'
+    have hmem : r ∉ m.accepted := by simpa using hacc
+    have hres : mutateRes s.core r = .na := by
+      simp only [mutateRes, hobj', Bool.not_false, ↓reduceIte]
+    have hc : s.core.step (.setName r) = s.core := by
+      simp only [Core.step, hobj', Bool.not_false, ↓reduceIte]
+    rw [hc, hres]
+    refine ⟨m, ?_, lemma_rel_setStatus s m hR i _ (Or.inl (by simp))⟩
+    simp [hmem, mutationOK]
+
+theorem lemma_urlFor (s : St) (m : Mon) (hR : Rel s m) (i : Nat) (r : RouteId) (hi : i < s.status.length) :
+    ∃ m', m.next (.urlFor r)
+        { actor := i, vis := visOf (setStatus s i .finished) i, out := .url (urlFor s.core r) } = some m' ∧
+      Rel (setStatus s i .finished) m' := by
+  rw [lemma_setStatus_vis_finished _ i hi]
+  refine ⟨m, ?_, lemma_rel_setStatus s m hR i _ (Or.inl (by simp))⟩
+  unfold urlFor
+  by_cases hfr : s.core.frozen = true
+  · by_cases hn : s.core.named.contains r = true
+    · have hm : r ∈ s.core.named := by simpa using hn
+      simp [Mon.next, hfr, hm, hR.names, hR.serving]
+    · have hm : r ∉ s.core.named := by simpa using hn
+      simp [Mon.next, hfr, hm, hR.names]
+  · have hfr' : s.core.frozen = false := by simpa using hfr
+    simp [Mon.next, hfr', hR.serving]
+
+/-- a request parked at `serve.frozen` consults the tree -/
+theorem lemma_lookup (s : St) (m : Mon) (hR : Rel s m) (i : Nat) (t : RouteId) (v : Bool)
+    (hs : s.status[i]? = some .atFrozen) :
+    ∃ m', m.next (.request t v)
+        { actor := i, vis := visOf (setStatus s i .finished) i, out := .hit (lookup s.core t v) } = some m' ∧
+      Rel (setStatus s i .finished) m' := by
+  have hi : i < s.status.length := by
+    rcases Nat.lt_or_ge i s.status.length with h | h
+    · exact h
+    · rw [List.getElem?_eq_none h] at hs; cases hs
+  rw [lemma_setStatus_vis_finished _ i hi]
+  have hd : s.core.fpc = .done := hR.frozenPt ⟨i, hs⟩
+  have hfr : s.core.frozen = true := hR.inv.frozen_iff.2 (by simp [hd])
+  refine ⟨m, ?_, lemma_rel_setStatus s m hR i _ (Or.inl (by simp))⟩
+  rw [lemma_lookup_done s.core hR.inv hd]
+  simp [Mon.next, expected, hR.serving, hfr, hR.accepted, hR.cons]
+
+/-! ### every scheduler step -/
+
+theorem lemma_stepActor (kinds : List Kind) (s : St) (m : Mon) (hR : Rel s m) (i : Nat) (k : Kind) (st : Status)
+    (hs : s.status[i]? = some st) :
+    ∃ m', m.next k { actor := i, vis := visOf (stepActor kinds s i k st).1 i,
+                     out := (stepActor kinds s i k st).2 } = some m' ∧
+      Rel (stepActor kinds s i k st).1 m' := by
+  have hi : i < s.status.length := by
+    rcases Nat.lt_or_ge i s.status.length with h | h
+    · exact h
+    · rw [List.getElem?_eq_none h] at hs; cases hs
+  cases st with
+  | inFreeze => exact lemma_inFreeze kinds s m hR i k
+  | inWarmup => exact lemma_inWarmup kinds s m hR i k
+  | blockedF => cases k <;> exact lemma_quiet m _ i s hR
+  | blockedW => cases k <;> exact lemma_quiet m _ i s hR
+  | finished => cases k <;> exact lemma_quiet m _ i s hR
+  | atEntry =>
+    cases k with
+    | request t v => exact lemma_callFreeze s m hR i _ hi
+    | _ => exact lemma_quiet m _ i s hR
+  | atFrozen =>
+    cases k with
+    | request t v => exact lemma_lookup s m hR i t v hs
+    | _ => exact lemma_quiet m _ i s hR
+  | start =>
+    cases k with
+    | request t v =>
+      exact lemma_quiet m _ i _ (lemma_rel_setStatus s m hR i _ (Or.inl (by simp)))
+    | freeze => exact lemma_callFreeze s m hR i _ hi
+    | warmup =>
+      simp only [stepActor]
+      cases hw : s.core.wpc with
+      | done => exact lemma_quiet m _ i _ (lemma_rel_setStatus s m hR i _ (Or.inl (by simp)))
+      | idle =>
+        simp only
+        refine lemma_quiet m _ i _ ?_
+        refine lemma_body_step s m hR .enterWarmup rfl (by simp) _ _ ?_
+        rintro ⟨j, hj⟩
+        rcases lemma_atFrozen_set _ i .inWarmup j hj with h1 | h1
+        · cases h1
+        · exact ⟨j, h1⟩
+      | drained => exact lemma_quiet m _ i _ (lemma_rel_setStatus s m hR i _ (Or.inl (by simp)))
+      | registered => exact lemma_quiet m _ i _ (lemma_rel_setStatus s m hR i _ (Or.inl (by simp)))
+      | compiled => exact lemma_quiet m _ i _ (lemma_rel_setStatus s m hR i _ (Or.inl (by simp)))
+    | register r => exact lemma_register s m hR i r hi
+    | whereInt r => exact lemma_whereInt s m hR i r hi
+    | setName r => exact lemma_setName s m hR i r hi
+    | urlFor r => exact lemma_urlFor s m hR i r hi
+
+theorem lemma_wakeF_length (kinds : List Kind) (s : St) (h : s.status.length = kinds.length) :
+    (wakeF kinds s).status.length = s.status.length := by
+  simp [wakeF, List.length_zip, h]
+
+theorem lemma_callFreeze_length (s : St) (i : Nat) (k : Kind) :
+    (callFreeze s i k).status.length = s.status.length := by
+  unfold callFreeze
+  cases s.core.fpc <;> simp [setStatus]
+
+theorem lemma_stepActor_length (kinds : List Kind) (s : St) (i : Nat) (k : Kind) (st : Status)
+    (h : s.status.length = kinds.length) :
+    (stepActor kinds s i k st).1.status.length = s.status.length := by
+  cases st <;> cases k <;> simp only [stepActor, callFreeze] <;> (repeat' split) <;>
+    simp [setStatus, wakeW, wakeF, List.length_zip, h]
+
+/-- **for every schedule** the trace of the model is accepted by the monitor, and the final states are
+    related -/
+theorem lemma_run_rel (kinds : List Kind) (sched : List Nat) (s : St) (m : Mon) (hR : Rel s m)
+    (hlen : s.status.length = kinds.length) (hv : ∀ i ∈ sched, i < kinds.length) :
+    ∃ m', monitor kinds m (runFrom kinds s sched).2 = some m' ∧ Rel (runFrom kinds s sched).1 m' ∧
+      (runFrom kinds s sched).1.status.length = kinds.length := by
+  induction sched generalizing s m with
+  | nil => exact ⟨m, rfl, hR, hlen⟩
+  | cons i rest ih =>
+    have hi : i < kinds.length := hv i (by simp)
+    obtain ⟨k, hk⟩ : ∃ k, kinds[i]? = some k := ⟨kinds[i], by simp [hi]⟩
+    obtain ⟨st, hst⟩ : ∃ st, s.status[i]? = some st := ⟨s.status[i]'(hlen ▸ hi), by simp [hlen, hi]⟩
+    have hstep : step kinds s i = stepActor kinds s i k st := by simp [step, hk, hst]
+    obtain ⟨m1, hm1, hR1⟩ := lemma_stepActor kinds s m hR i k st hst
+    have hlen1 : (stepActor kinds s i k st).1.status.length = kinds.length :=
+      (lemma_stepActor_length kinds s i k st hlen).trans hlen
+    obtain ⟨m2, hm2, hR2, hl2⟩ := ih (stepActor kinds s i k st).1 m1 hR1 hlen1 (fun j hj => hv j (by simp [hj]))
+    refine ⟨m2, ?_, ?_, ?_⟩
+    · simp only [runFrom, hstep, monitor, hk, hm1]
+      exact hm2
+    · simp only [runFrom, hstep]; exact hR2
+    · simp only [runFrom, hstep]; exact hl2
+
+
+/-! ### the freeze that the first probe request completes -/
+
+/-- the control part of a body operation: it depends on the two program positions only -/
+def ctlStep : FPc × WPc → Op → FPc × WPc
+  | (f, w), .enterFreeze => if f = .idle then (.flags, w) else (f, w)
+  | (f, w), .freezeCallWarmup =>
+    if f = .flags then
+      (match w with
+       | .done => (.tail, w)
+       | .idle => (.inWarmup, .drained)
+       | _ => (.inWarmup, w))
+    else (f, w)
+  | (f, w), .warmupStep =>
+    (match w with
+     | .drained => (f, .registered)
+     | .registered => (f, .compiled)
+     | .compiled => (if f = .inWarmup then .tail else f, .done)
+     | _ => (f, w))
+  | (f, w), .freezeFinish => if f = .tail then (.done, w) else (f, w)
+  | p, _ => p
+
+theorem lemma_ctlStep (c : Core) (op : Op)
+    (h : op = .enterFreeze ∨ op = .freezeCallWarmup ∨ op = .warmupStep ∨ op = .freezeFinish) :
+    ((c.step op).fpc, (c.step op).wpc) = ctlStep (c.fpc, c.wpc) op := by
+  rcases h with rfl | rfl | rfl | rfl
+  · simp only [Core.step, ctlStep]; split <;> rfl
+  · simp only [Core.step, ctlStep]
+    split
+    · cases c.wpc <;> simp [drain]
+    · rfl
+  · cases hw : c.wpc with
+    | idle => simp [Core.step, ctlStep, hw]
+    | done => simp [Core.step, ctlStep, hw]
+    | registered => simp [Core.step, ctlStep, hw]
+    | compiled => simp [Core.step, ctlStep, hw]
+    | drained =>
+      simp only [Core.step, ctlStep, hw]
+      have := lemma_foldl_fields c.taken { c with taken := [], wpc := .drained }
+      simp only [Prod.mk.injEq, and_true]
+      exact this.2.2.2.2.2.2.2.2.1
+  · simp only [Core.step, ctlStep]; split <;> rfl
+
+def completeOps : List Op := [.enterFreeze, .freezeCallWarmup, .warmupStep, .warmupStep, .warmupStep, .freezeFinish]
+
+theorem lemma_completeFreeze_eq (c : Core) : completeFreeze c = completeOps.foldl Core.step c := rfl
+
+theorem lemma_ctl_fold (ops : List Op) (c : Core)
+    (h : ∀ op ∈ ops, op = .enterFreeze ∨ op = .freezeCallWarmup ∨ op = .warmupStep ∨ op = .freezeFinish) :
+    ((ops.foldl Core.step c).fpc, (ops.foldl Core.step c).wpc) = ops.foldl ctlStep (c.fpc, c.wpc) := by
+  induction ops generalizing c with
+  | nil => rfl
+  | cons o os ih =>
+    simp only [List.foldl_cons]
+    rw [ih (c.step o) (fun op hop => h op (by simp [hop])), lemma_ctlStep c o (h o (by simp))]
+
+/-- positions that `Inv` allows -/
+def ctlValid (f : FPc) (w : WPc) : Bool :=
+  (if f = .tail || f = .done then w = .done else true) && (if f = .inWarmup then w != .idle && w != .done else true)
+
+theorem lemma_ctl_complete (f : FPc) (w : WPc) (h : ctlValid f w = true) :
+    (completeOps.foldl ctlStep (f, w)).1 = .done := by
+  cases f <;> cases w <;> revert h <;> decide
+
+theorem lemma_completeFreeze_done (c : Core) (h : Inv c) : (completeFreeze c).fpc = .done := by
+  have hv : ctlValid c.fpc c.wpc = true := by
+    have h1 := h.tail_done
+    have h2 := h.in_warmup
+    unfold ctlValid
+    cases hf : c.fpc <;> cases hw : c.wpc <;> simp_all
+  have := lemma_ctl_fold completeOps c (by intro op hop; simp [completeOps] at hop; exact hop)
+  rw [lemma_completeFreeze_eq]
+  have h2 := lemma_ctl_complete c.fpc c.wpc hv
+  rw [← this] at h2
+  exact h2
+
+theorem lemma_body_fold_fields (ops : List Op) (c : Core) (h : ∀ op ∈ ops, op.isBody = true) :
+    (ops.foldl Core.step c).objs = c.objs ∧ (ops.foldl Core.step c).cons = c.cons := by
+  induction ops generalizing c with
+  | nil => exact ⟨rfl, rfl⟩
+  | cons o os ih =>
+    simp only [List.foldl_cons]
+    obtain ⟨h1, h2⟩ := ih (c.step o) (fun op hop => h op (by simp [hop]))
+    obtain ⟨g1, g2, _⟩ := lemma_body_fields c o (h o (by simp))
+    exact ⟨h1.trans g1, h2.trans g2⟩
+
+/-- the probe requests after the run see exactly the accepted registrations and constraints -/
+theorem lemma_probes (s : St) (m : Mon) (hR : Rel s m) (ids : List RouteId) :
+    probes s.core ids = ids.map fun r => (expected m r true, expected m r false) := by
+  unfold probes
+  have hI : Inv (completeFreeze s.core) := lemma_inv_run completeOps s.core hR.inv
+  have hd := lemma_completeFreeze_done s.core hR.inv
+  obtain ⟨ho, hc⟩ := lemma_body_fold_fields completeOps s.core (by intro op hop; simp [completeOps] at hop; rcases hop with rfl | rfl | rfl | rfl <;> rfl)
+  rw [← lemma_completeFreeze_eq] at ho hc
+  apply List.map_congr_left
+  intro r _
+  rw [lemma_lookup_done _ hI hd, lemma_lookup_done _ hI hd, ho, hc]
+  simp [expected, hR.accepted, hR.cons]
+
 end Rivaas.Phases
